@@ -196,16 +196,29 @@ func TestVerifC15TwoNodes(t *testing.T) {
 		w.classify(o)
 		judge := func(o tnObservation) (string, string) {
 			known := map[string]int{}
+			// a node without a clock that is restarted numbers its bundles from 0 again (C14 does not quantify over
+			// restarts): two submissions can then carry the same ID, and a report about "that ID" cannot be told apart
+			shared := map[string]bool{}
 			for i := range w.subs {
 				for _, b := range o.Copies[i] {
 					b := b
-					known[tnIDOf(&b)] = i
+					id := tnIDOf(&b)
+					if j, ok := known[id]; ok && j != i {
+						shared[id] = true
+					}
+					known[id] = i
 				}
+			}
+			if len(shared) > 0 {
+				c.Class("a bundle ID was used again after a restart (reports about it are not judged)")
 			}
 			for x := 0; x < 2; x++ {
 				for _, r := range o.Reports[x] {
 					if r.Err != "" {
 						return "c15.malformed-report", fmt.Sprintf("the application of node %d received an administrative record that is no well-formed status report: %s", x, r.Err)
+					}
+					if shared[r.Ref] {
+						continue
 					}
 					i, ok := known[r.Ref]
 					if !ok {
@@ -231,6 +244,16 @@ func TestVerifC15TwoNodes(t *testing.T) {
 				}
 			}
 			for i, s := range w.subs {
+				ambiguous := false
+				for _, b := range o.Copies[i] {
+					b := b
+					if shared[tnIDOf(&b)] {
+						ambiguous = true
+					}
+				}
+				if ambiguous {
+					continue
+				}
 				recv, dlv, others := count(o, i)
 				if len(others) > 0 {
 					return "c15.untrue-report", fmt.Sprintf("bundle %d was received and delivered by the other node and nothing else happened to it, but a report asserts status %d (reason %d)", i, others[0].Status, others[0].Reason)
